@@ -152,7 +152,11 @@ func checkResolveTypes(w *World, r *Result) {
 		ast.Inspect(body, func(x ast.Node) bool {
 			switch s := x.(type) {
 			case *ast.IndexExpr:
-				if !collect && strings.HasSuffix(es(s.X), ".Types") {
+				isMemo := strings.HasSuffix(es(s.X), ".Types")
+				if t := info.TypeOf(s.X); t != nil && strings.HasPrefix(t.String(), "map[go/types.Type]") && strings.HasSuffix(t.String(), "analysis.Type") {
+					isMemo = true // the memo itself, under whatever name it was bound to
+				}
+				if !collect && isMemo {
 					if p := path(s.Index); p != "" {
 						resolved[p] = s
 					}
@@ -946,6 +950,50 @@ func checkContractOrder(w *World, r *Result) {
 		}
 		// loops nested inside the pass over the right-hand sides (a table of method names tried for one right-hand
 		// side) keep the source order: only the outermost loop decides the grouping
+		if depth == 0 {
+			// the function handles one right-hand side: the pass over them is at its call sites
+			sites, good := 0, true
+			for _, caller := range sortedFuncs(w) {
+				if caller.Decl.Body == nil || caller.Pkg != fi.Pkg {
+					continue
+				}
+				ci := caller.Pkg.TypesInfo
+				ast.Inspect(caller.Decl.Body, func(x ast.Node) bool {
+					call, ok := x.(*ast.CallExpr)
+					if !ok || calleeOf(ci, call) != fi.Obj {
+						return true
+					}
+					sites++
+					var loops []ast.Node
+					ast.Inspect(caller.Decl.Body, func(y ast.Node) bool {
+						switch l := y.(type) {
+						case *ast.RangeStmt:
+							if l.Body.Pos() <= call.Pos() && call.End() <= l.Body.End() {
+								loops = append(loops, l)
+							}
+						case *ast.ForStmt:
+							if l.Body.Pos() <= call.Pos() && call.End() <= l.Body.End() {
+								loops = append(loops, l)
+							}
+						}
+						return true
+					})
+					okSite := false
+					if len(loops) >= 1 {
+						if rs, ok := loops[0].(*ast.RangeStmt); ok {
+							if t := ci.TypeOf(rs.X); t != nil && t.String() == "[]go/ast.Expr" {
+								okSite = true
+							}
+						}
+					}
+					if !okSite {
+						good = false
+					}
+					return true
+				})
+			}
+			depth, overParam = 1, sites > 0 && good
+		}
 		r.cond(depth >= 1 && overParam, "SHP-C13s", fi.Name, "append to "+es(as.Lhs[0])+" in source order", w.Pos(as.Pos()),
 			"the outermost loop is one pass over the right-hand sides, in their order",
 			"the parameters are appended inside nested loops (the outer one does not range over the right-hand sides): they come out grouped by the outer loop's variable instead of in source order")
